@@ -46,7 +46,7 @@ CLAIMS['C16'] = {
   'design_ref': '§4 C16'}
 CLAIMS['C17'] = {
   'text': "Contracts on the verbatim bodies of colvar::update_forces_energy and colvar::end_of_step (symbolic reals): biases act on the extended coordinate (f = fb, Jacobian correction iff hidden), the extended-Lagrangian step runs exactly when the feature is on and a simulation is running, the atoms additionally feel fb_actual unless the variable is external, the returned energy is potential + kinetic, and end_of_step records the relative step used to detect a repeated step.",
-  'note': "update_extended_Lagrangian itself (integrator, reflection, coupling force formula) and the state-file time origin are n/d.",
+  'note': "Thorough tier additionally proves a contract on the whole body of update_extended_Lagrangian (12 min): coupling force (-k/2) d/dx_ext dist2(x_ext, x) over the variable's own metric, atoms feel minus that force times the time-step factor, reported total force selection, saved state for undoing a repeated step, coupling energy. The integrator's arithmetic, reflection bounds and the state-file time origin are n/d.",
   'design_ref': '§4 C17'}
 CLAIMS['C19'] = {
   'text': "Contracts on the verbatim bodies of colvarmodule::write_traj_files (a data line exactly on absolute steps that are multiples of the frequency, labels at segment start / on request / every 1000 lines, flag cleared), of the walls restraint energy (written E_ column: constant of the wall actually exceeded) and of the accumulated-work update.",
@@ -61,7 +61,7 @@ CLAIMS['C20'] = {
   'note': "colvarscript::run dispatch, the per-command bodies, the proxy's config queue and 'script numbers equal engine numbers' are n/d.",
   'design_ref': '§4 C20'}
 CLAIMS['C10'] = {
-  'text': "Contracts on the statements that consume frequency/stride parameters (colvar::parse_analysis runAve and corrFunc blocks, colvarbias_meta::init newHillFrequency, head of colvarbias_meta::update_bias), with get_keyval delivering ANY value: no integer division by zero, a zero stride is an error, a metadynamics bias is history dependent only with a positive hill frequency and never evaluates the schedule otherwise.",
+  'text': "Contracts on the statements that consume frequency/stride parameters (colvar::parse_analysis runAve and corrFunc blocks, colvarbias_meta::init newHillFrequency, head of colvarbias_meta::update_bias), with get_keyval delivering ANY value: no integer division by zero, a zero stride is an error, a metadynamics bias is history dependent only with a positive hill frequency and never evaluates the schedule otherwise; a coordNum pairlist is allocated only with a positive refresh frequency; colvarmodule::parse_config discards auto-generated configuration left by an earlier rejected call before parsing anything and stops at the first failing stage.",
   'note': "Statement ranges (not whole functions) are sliced; other parameters (widths, sizes, atom ranges, ABF list lengths, OPES), roll-back after a rejected configuration and non-finite floats are n/d.",
   'design_ref': '§4 C10'}
 CLAIMS['C04'] = {
@@ -73,9 +73,9 @@ CLAIMS['C05'] = {
   'note': "Hill frequency fixed to 10 in the schedule task (constant divisor); hill values, weights, well-tempered scaling, grids, rebinning and keepHills are n/d (Gaussian sums over exp are outside reach).",
   'design_ref': '§4 C05'}
 CLAIMS['C09'] = {
-  'text': "Contracts on the verbatim bodies of colvarmodule::getline (LF and CRLF lines deliver the same text, a CR-only line is empty), colvarparse::check_braces (OK iff opening and closing braces from the start position balance) and to_lower_cppstr (ASCII folding), over a bounded std::string stand-in.",
-  'note': "All tasks are bounded stand-ins (strings of at most 6 characters), hence level 'other', not proof. key_lookup, check_keywords, typed value extraction and whole-parser layout independence are n/d.",
-  'design_ref': '§4 C09', 'category': 'other'}
+  'text': "Contracts on the verbatim bodies of colvarmodule::getline (LF and CRLF lines deliver the same text, a CR-only line is empty), colvarparse::check_braces (OK iff opening and closing braces from the start position balance) and to_lower_cppstr (ASCII folding), over a bounded std::string stand-in; colvarparse::clear_keyword_registry empties the whole registry including the list of keywords valid in the context just parsed (so a later parse by the same object is strict again).",
+  'note': "The string helpers are bounded stand-ins (strings of at most 6 characters, counted separately); the registry task is loop-free. key_lookup, check_keywords, typed value extraction and whole-parser layout independence are n/d.",
+  'design_ref': '§4 C09'}
 CLAIMS['C18'] = {
   'text': "Contracts on the verbatim bodies of colvar::cvc::dist2, dist2_lgrad, dist2_rgrad and wrap with symbolic reals: value and gradient use the same minimum-image displacement d = (x1-x2) - floor((x1-x2)/P + 1/2) P for any number of periods (gradient = 2d, distance = d*d), non-periodic components use the plain difference, and wrap maps x to x - floor((x-c)/P + 1/2) P around the wrap centre.",
   'note': "Structural (uninterpreted arithmetic): that the formula selects the nearest image numerically is real analysis and not decided. colvarvalue's vector/quaternion metrics and interpolation are n/d.",
